@@ -99,6 +99,10 @@ def stepSealed (s : DState) (w : List String) : DState × String :=
     match parseHex k with
     | some k => (s, getStr (s.get k))
     | none => (s, "bad-op")
+  | "sbget" :: ks =>
+    match parseAll ks with
+    | some keys => (s, listing (batchGet s.snap s.buf.cur keys))
+    | none => (s, "bad-op")
   | "bget" :: ks =>
     match parseAll ks with
     | some keys => (s, listing (batchGet s.snap s.buf.cur keys))
